@@ -128,6 +128,12 @@ pub fn generate(tier: Tier, rng: &mut Rng) -> Vec<Case> {
             }
         }
     }
+    // texts a general-purpose number parser would take but CEL does not, and errors at column 1 of
+    // a continuation line
+    for src in ["+5", "+0", "+42", "+ 5", "+5u", "+1.5", "-+5", "+-5", "0_0", "1_000", "٣", "５", "0b11", "0o7", "1e+", "inf", "NaN", "-inf", "Infinity", "1e", "1.e", "0x", "5.", "٣ + 1",
+        "x.all(\n1, y)", "has(\nm)", "[1, 2, 3]\n  .map(\n'v', v + 1)", "x.map(\n\n1, 2)", "x.filter(\r\n1, 2)", "['éé'].all(\n1,\n2)"] {
+        push(src.to_string(), "catalogue");
+    }
     // white-space-only and comment-only sources of several lines
     for src in ["\n", "\n\n", " \n", "\t\n  \n", "\r\n", " \n \n ", "\n// c", "// c\n", "// c\n\n", "\u{c}\n"] {
         push(src.to_string(), "blank-lines");
